@@ -1169,7 +1169,10 @@ package server
 //@   at call Remove assert C16.crash.rename-first: calls(Rename) == 2
 //@   modifies all
 // the engine's answer is taken as given by the compaction (its own correctness is the subject of C01/C02/C06)
+// (the answer for a renewal record is decided on the hold the record's LockId owns, not on whatever hold is the key's oldest)
 //@ func (*LockDB).HasLock
+//@   requires self != nil && command != nil
+//@   at call CheckLockedEqual assert C16.haslock.same-holder: arg1 != nil && calls(GetLockedLock) == 1 && arg1 == currentLock && arg2 == command
 //@   modifies all
 
 // =====================================================================================================
